@@ -76,8 +76,9 @@ Proof. exact sget_site_is_real. Qed.
 (* non-vacuity: a CMap that parses, and a text it decodes *)
 Definition example_cmap : bytes := Eval cbv in bs
   "/CIDInit /ProcSet findresource begin 12 dict begin begincmap /CMapType 2 def 1 begincodespacerange <00> <ff> endcodespacerange 1 beginbfrange <41> <43> <0061> endbfrange endcmap CMapName currentdict /CMap defineresource pop end end".
-Theorem C04_example_cmap : exists cm, cmap_parse example_cmap = ParseOk cm /\ outcome (scmap_text cm [x41; x42; x7a]) = SOk 3.
-Proof. eexists. split; vm_compute; reflexivity. Qed.
+Theorem C04_example_cmap :
+  match cmap_parse example_cmap with ParseOk cm => outcome (scmap_text cm [x41; x42; x7a]) = SOk 3 | _ => False end.
+Proof. vm_compute. reflexivity. Qed.
 
 Print Assumptions C04_a85_no_panic.
 Print Assumptions C04_a85_terminates.
